@@ -552,6 +552,17 @@ def _ew2(op, x, y):
             if not isinstance(u, Sym) and not isinstance(v, Sym):
                 with _np.errstate(all='ignore'):
                     return (_np.float64(u) / _np.float64(v)).item()
+            if not isinstance(v, Sym) and v == 0:
+                # x / 0 with symbolic x: nan if x == 0, +-inf otherwise (forks)
+                if _b.bool(u == 0):
+                    return nan
+                return inf if _b.bool(u > 0) else -inf
+            if not isinstance(u, Sym) and (u != u or u in (inf, -inf)):
+                if u != u:
+                    return nan
+                return u if _b.bool(v > 0) else (-u if _b.bool(v < 0) else nan)
+            if not isinstance(v, Sym) and (v != v):
+                return nan
             return cast_elem(f(u, v), rdt)
     elif op in ('and_', 'or_', 'xor') and rdt.kind == 'b':
         def g(u, v):
@@ -606,6 +617,8 @@ def _sym_shape(shape):
 def full(shape, v, dtype=None):
     shape = _shape(shape)
     dt = _dt(dtype) or _scalar_dt(v)
+    if _sym_shape(shape) and core.eng().concretize_shapes:
+        shape = tuple(operator.index(d) for d in shape)
     if _sym_shape(shape):
         from . import lam
         return lam.const(shape, v, dt)
@@ -1340,6 +1353,16 @@ def bincount(x, weights=None, minlength=0):
         w = None if weights is None else _toreal(asarray(weights))
         return _wrap(_np.bincount(x.real(), weights=w, minlength=operator.index(minlength)))
     xl = x.a.tolist()
+    if weights is not None:
+        # weighted histogram: the bin of every element is enumerated (counts become concrete)
+        xl = [operator.index(v) if isinstance(v, Sym) else v for v in xl]
+    else:
+        kv = [core.eng().known_value(v.term) if isinstance(v, Sym) else v for v in xl]
+        if _b.all(k is not None for k in kv):
+            xl = kv
+    if not _b.any(isinstance(v, Sym) for v in xl) and (weights is None or not _has_sym(weights)):
+        w = None if weights is None else _toreal(asarray(weights))
+        return _wrap(_np.bincount(_np.array(xl, dtype=_np.int64), weights=w, minlength=operator.index(minlength)))
     for v in xl:
         if _b.bool(v < 0):
             raise ValueError("'list' argument must have no negative elements")
@@ -1473,7 +1496,7 @@ def average(x, axis=None, weights=None):
     w = asarray(weights)
     if axis != 0 or w.ndim != 1:
         raise Inconclusive('average')
-    wl = w.a.tolist()
+    wl = [operator.index(v) if isinstance(v, SymInt) else v for v in w.a.tolist()]
     tot = 0
     for v in wl:
         tot = tot + v
